@@ -100,20 +100,20 @@ type SpaceStat struct {
 
 // Result is what one worker (or the merged run) produced.
 type Result struct {
-	Spaces      map[string]*SpaceStat `json:"spaces"`
-	Counters    map[string]int64      `json:"counters"`
-	Violations  []*Violation          `json:"violations"`
-	NViolations int64                 `json:"n_violations"`
-	Known       map[string]int64      `json:"known"`
-	KnownEx     map[string]string     `json:"known_examples"`
-	Samples     []any                 `json:"samples"`
-	Notes       []string              `json:"notes"`
-	Broken      []string              `json:"broken"`
-	Exhaustive  bool                  `json:"exhaustive"`
-	States      int64                 `json:"states"`
-	Transitions int64                 `json:"transitions"`
-	Traces      int64                 `json:"traces"`
-	StatesCapped bool                 `json:"states_capped"`
+	Spaces       map[string]*SpaceStat `json:"spaces"`
+	Counters     map[string]int64      `json:"counters"`
+	Violations   []*Violation          `json:"violations"`
+	NViolations  int64                 `json:"n_violations"`
+	Known        map[string]int64      `json:"known"`
+	KnownEx      map[string]string     `json:"known_examples"`
+	Samples      []any                 `json:"samples"`
+	Notes        []string              `json:"notes"`
+	Broken       []string              `json:"broken"`
+	Exhaustive   bool                  `json:"exhaustive"`
+	States       int64                 `json:"states"`
+	Transitions  int64                 `json:"transitions"`
+	Traces       int64                 `json:"traces"`
+	StatesCapped bool                  `json:"states_capped"`
 }
 
 func newResult() *Result {
@@ -167,7 +167,7 @@ func (c *Ctx) Mine() bool {
 	return int((c.counter+c.Seed)%int64(c.NShards)) == c.Shard
 }
 
-func (c *Ctx) Eval()               { c.space.Evals++; atomic.AddInt64(&c.progress, 1) }
+func (c *Ctx) Eval() { c.space.Evals++; atomic.AddInt64(&c.progress, 1) }
 
 // Cur names the case about to be evaluated (cheap form: evaluator kind + two strings), so that the watchdog can
 // produce a replayable artefact if the library never returns from it.
@@ -175,7 +175,7 @@ func (c *Ctx) Cur(kind, a, b string) { c.curKind, c.curA, c.curB, c.curMk = kind
 
 // CurCase is the general form (a closure building the case; used where one evaluation costs microseconds anyway).
 func (c *Ctx) CurCase(mk func() *Case) { c.curMk = mk }
-func (c *Ctx) Nontrivial()         { c.space.Nontrivial++ }
+func (c *Ctx) Nontrivial()             { c.space.Nontrivial++ }
 func (c *Ctx) Count(k string, n int64) { c.R.Counters[k] += n }
 
 // Expired reports (and records) that the internal deadline was reached: the current space is marked
@@ -282,13 +282,26 @@ func (c *Ctx) Report(f *Finding, mk func() *Case) (known bool) {
 	// confirmation: the replayable case must yield a finding of the same discrepancy class five times in a row
 	// (the detail text may vary, e.g. when the defect itself keeps state between calls; that is noted)
 	varied := false
+	once := OnceSuffices[c.Property+"/"+f.Class]
+	hits := 0
 	for i := 0; i < 5; i++ {
 		g := ev(cs)
 		if g == nil || g.Class != f.Class {
+			if once && (g == nil || g.Class == f.Class) {
+				continue
+			}
 			c.Broken("finding did not reproduce through the replay evaluator (run %d): first=%+v again=%+v case=%s", i, f, g, mustJSON(cs))
 			return false
 		}
+		hits++
 		varied = varied || g.Detail != f.Detail
+	}
+	if hits == 0 {
+		c.Broken("finding did not reproduce through the replay evaluator in any of five runs: first=%+v case=%s", f, mustJSON(cs))
+		return false
+	}
+	if hits < 5 {
+		f = &Finding{Class: f.Class, Subject: f.Subject, Detail: f.Detail + fmt.Sprintf(" [reproduced in %d of 5 fresh-process confirmations: the execution is not deterministic under the detector]", hits)}
 	}
 	if varied {
 		f = &Finding{Class: f.Class, Subject: f.Subject, Detail: f.Detail + " [the detail text varied between the five confirmation runs: the behaviour depends on earlier calls in the same process]"}
@@ -296,6 +309,9 @@ func (c *Ctx) Report(f *Finding, mk func() *Case) (known bool) {
 	c.R.Violations = append(c.R.Violations, &Violation{Property: c.Property, Finding: f, Case: cs})
 	return false
 }
+
+// OnceSuffices is filled by checks at registration time ("<property>/<class>").
+var OnceSuffices = map[string]bool{}
 
 func mustJSON(v any) string {
 	b, err := json.Marshal(v)
@@ -308,14 +324,18 @@ func mustJSON(v any) string {
 // ---------------------------------------------------------------------------------------------
 
 type Check struct {
-	ID        string
-	Level     string // evidence level
-	Rule      string
-	Assume    []string
-	Trusted   []string
-	Workers   int // 0 = NumCPU
-	Env       []string // extra environment for the workers; "{scratch}" is replaced by the scratch directory
-	Body      func(c *Ctx)
+	ID      string
+	Level   string // evidence level
+	Rule    string
+	Assume  []string
+	Trusted []string
+	Workers int      // 0 = NumCPU
+	Env     []string // extra environment for the workers; "{scratch}" is replaced by the scratch directory
+	Body    func(c *Ctx)
+	// (see OnceSuffices below: discrepancy classes whose reports cannot be false positives - a report of the Go race
+	// detector - and whose reproduction may legitimately be probabilistic because the LIBRARY or the runtime
+	// randomises under the detector, e.g. sync.Pool drops a quarter of its Puts in race mode: for these, one
+	// reproduction among the five confirmation runs is enough, the number that reproduced is noted in the finding)
 	// Finish runs in the parent after merging (optional).
 	Finish func(r *Result, extra map[string]any)
 }
@@ -633,16 +653,16 @@ func finish(ck *Check, tier string, seed int64, m *Result, start time.Time) int 
 		_ = os.WriteFile(v.Replay, b, 0o644)
 	}
 	cov := map[string]any{
-		"evaluations":         evals,
-		"distinct_nontrivial": nontrivMax,
-		"rule":                ck.Rule,
-		"samples":             m.Samples,
-		"exhaustive":          m.Exhaustive && len(m.Broken) == 0,
-		"spaces":              m.Spaces,
-		"counters":            m.Counters,
-		"notes":               append([]string{}, m.Notes...),
+		"evaluations":            evals,
+		"distinct_nontrivial":    nontrivMax,
+		"rule":                   ck.Rule,
+		"samples":                m.Samples,
+		"exhaustive":             m.Exhaustive && len(m.Broken) == 0,
+		"spaces":                 m.Spaces,
+		"counters":               m.Counters,
+		"notes":                  append([]string{}, m.Notes...),
 		"known_findings_matched": m.Known,
-		"trusted_base":        ck.Trusted,
+		"trusted_base":           ck.Trusted,
 	}
 	if ck.Level == "model_checking" {
 		cov["states"] = m.States
